@@ -99,7 +99,10 @@ def gen_case(rng, sb):
             # unset / relative to the task sandbox / absolute ('ABS:' is replaced by a scratch directory), independently
             'stdout': rng.choice([None, None, 'out.txt', 'my out.txt', "o'q.out", 'a;b.out', 'ABS:abs.out', 'ABS:abs o.txt']),
             'stderr': rng.choice([None, None, 'err.txt', 'my err.txt', 'ABS:abs.err', 'ABS:abs e.txt']),
-            'sandbox': sandbox, 'name': rng.choice([None, None, 'my.task']), 'seq': rng.randrange(10 ** 6), 'expansion': expansion}
+            'sandbox': sandbox, 'name': rng.choice([None, None, 'my.task']), 'seq': rng.randrange(10 ** 6), 'expansion': expansion,
+            # (not together with a named environment: its prepared script un-sets what the executor's environment had when
+            #  it was prepared - with an outer task's RP_* variables there it un-sets the task's own ones, DESIGN.md 7.3)
+            'outer': rng.random() < 0.25 and not named_env}
 
 
 def build(rp, sb, case, uid):
@@ -267,6 +270,9 @@ def monitor(sb, case, task, res, pwd):
         bad.append(('launch:exit-code', 'exit code %s, described %s (ranks %s)' % (res['rc'], exp_rc, exp_codes)))
     # what the executable saw
     for r, info in res['ranks'].items():
+        if r >= n:
+            bad.append(('exec:process-runs-as-a-rank-the-task-does-not-have', 'a process took itself for rank %d of %d' % (r, n)))
+            continue
         if not case['expansion'] and info['argv'] != case['args']:
             bad.append(('exec:argv-differs', 'rank %d got %r, described %r' % (r, info['argv'], case['args'])))
         e = info['env']
@@ -313,6 +319,10 @@ def one(rp, sb, p, case, uid):
         case['_named_path'] = '%s/env/rp_named_env.%s.%s.sh' % (sb.psbox, case['named_env'], launcher.name.lower())
     p._session.rcfg['task_pre_exec'] = ['export PLATFORM_PRE=1'] if case['platform'] else None
     extra = {'PROBE_EXIT_%d' % r: str(c) for r, c in enumerate(case['exe_codes'])}
+    if case.get('outer'):
+        # the executor itself runs inside a rank of a task of another RP instance (a sub-agent, nested pilots): its
+        # environment carries that task's RP_* variables
+        extra.update({'RP_RANK': '7', 'RP_RANKS': '9', 'RP_TASK_ID': 'task.outer', 'RP_TASK_NAME': 'outer', 'RP_CORES_PER_RANK': '7'})
     res = execlib.run_task(rp, sb, p, task, launcher, env_extra=extra)
     return task, launcher, res
 
